@@ -268,7 +268,7 @@ REGISTRY["C18"] = c18
 DECO_TEXT = {
     "space": " ", "tab": "\t", "newline": "\n", "crlf": "\r\n", "blank2": "\n \n", "splice": "\\\n", "splice_crlf": "\\\r\n", "splice2": "\\\n\\\n",
     "blk_plain": "/* note */", "blk_dq": '/* " */', "blk_sq": "/* ' */", "blk_slsl": "/* // not a line comment */", "blk_open": "/* /* still one comment */",
-    "blk_define": "/* #define X 1 */", "blk_url": "/* http://x/*y */", "blk_stars": "/*** boxed ***/", "blk_multi": "/* first\n * second\n */", "blk_tight": "/*c*/",
+    "blk_define": "/* #define X 1 */", "blk_url": "/* http://x/*y */", "blk_stars": "/*** boxed ***/", "blk_multi": "/* first\n * second\n */", "tighten": "", "blk_tight": "/*c*/", "blk_slash": "/*/ char hidden9; /*/", "blk_empty": "/**/",
     "line_plain": "// note\n", "line_dq": '// "quoted\n', "line_blk": "// /* not a block\n", "line_end": "// */ stray\n", "line_define": "//#define X 1\n",
 }
 _TOK11 = re.compile(r'"(?:[^"\\\n]|\\.)*"|\'(?:[^\'\\\n]|\\.)*\'|[A-Za-z_][A-Za-z0-9_]*|0x[0-9a-fA-F]+|\d+|<<=|>>=|\+\+|--|&&|\|\||<<|>>|<=|>=|==|!=|\+=|-=|&=|\|=|\^=|\S')
@@ -285,6 +285,31 @@ def gaps_of(src):
                 out.append((b, c))
         pos += len(line) + 1
     return out
+
+
+def macro_context(src, gap):
+    """'call-gap': the gap is between the name of a function-like macro and the ( of its call; 'in-args': inside the
+    parentheses of such a call; '' otherwise"""
+    names = set(re.findall(r"^[ \t]*#[ \t]*define[ \t]+([A-Za-z_]\w*)\(", src, re.M))
+    if not names:
+        return ""
+    before, after = src[:gap[0]], src[gap[1]:]
+    m = re.search(r"([A-Za-z_]\w*)$", before)
+    if m and m.group(1) in names and after.startswith("("):
+        return "call-gap"
+    depth = 0
+    i = len(before) - 1
+    while i >= 0 and before[i] != "\n":
+        ch = before[i]
+        if ch == ")":
+            depth += 1
+        elif ch == "(":
+            if depth == 0:
+                m = re.search(r"([A-Za-z_]\w*)\s*$", before[:i])
+                return "in-args" if m and m.group(1) in names else ""
+            depth -= 1
+        i -= 1
+    return ""
 
 
 def decorate(src, gap, deco, tight=False):
@@ -331,11 +356,21 @@ def c11(tier):
         if not gs:
             continue
         gap = gs[(o["g"] * 7919 + o["p"] * 31) % len(gs)]
-        for tight in ((False, True) if o["d"].startswith("blk") else (False,)):
+        dname = o["d"]
+        if dname == "tighten":
+            opch = "+-<>&|=!/*^%"
+            safe = [g for g in gs if g[0] < g[1] and g[0] > 0 and g[1] < len(src)
+                    and not (re.match(r"\w", src[g[0] - 1]) and re.match(r"\w", src[g[1]]))
+                    and not (src[g[0] - 1] in opch and src[g[1]] in opch) and src[g[0] - 1] not in "\"'" and src[g[1]] not in "\"'"]
+            if not safe:
+                continue
+            gap = safe[(o["g"] * 7919 + o["p"] * 31) % len(safe)]
+            dname = "tighten:%s|%s" % (re.search(r"(\w+|\S)$", src[:gap[0]]).group(1), re.match(r"(\w+|\S)", src[gap[1]:]).group(1))
+        for tight in ((True,) if o["d"] == "tighten" else (False, True) if o["d"].startswith("blk") else (False,)):
             if tight and src[gap[0]:gap[1]] == "":
                 continue        # the two tokens touch: nothing to replace
             dec = decorate(src, gap, o["d"], tight)
-            cases.append(dict(id=len(cases), src=src, _dec=dec, _deco=o["d"] + ("/tight" if tight else ""), _gap=src[max(0, gap[0] - 12):gap[1] + 12],
+            cases.append(dict(id=len(cases), src=src, _dec=dec, _deco=(dname if o["d"] == "tighten" else o["d"] + ("/tight" if tight else "")), _mctx=macro_context(src, gap), _nl=("\n" in DECO_TEXT[o["d"]]), _gap=src[max(0, gap[0] - 12):gap[1] + 12],
                               variants=[dict(name="plain-O1", args=["-O1"], src=src), dict(name="deco-O1", args=["-O1"], src=dec),
                                         dict(name="deco-O0", args=["-O0"], src=dec), dict(name="plain-O0", args=["-O0"], src=src)]))
     # listing / warning options on the undecorated programs
@@ -373,9 +408,14 @@ def c11(tier):
                 else:
                     same += 1
                     continue
-            key = "deco:" + c["_deco"]
-            if key in kf:
-                verdict.attribute(kf[key])
+            keys = ["deco:" + c["_deco"]]
+            if c.get("_mctx") == "call-gap":
+                keys.append("gap:fnmacro-call")
+            if c.get("_mctx") == "in-args" and c.get("_nl"):
+                keys.append("gap:fnmacro-args-newline")
+            hit = [kf[k] for k in keys if k in kf]
+            if hit:
+                verdict.attribute(hit[0])
                 continue
             verdict.violation("%s between `%s` at -%s: %s" % (c["_deco"], c["_gap"].replace("\n", "\\n"), lvl, problem),
                               dict(property=pid, decoration=c["_deco"], where=c["_gap"], level=lvl, problem=problem, plain=c["src"], decorated=c["_dec"]))
